@@ -29,7 +29,46 @@ def g2(v):
     return 1.0 / ((1.0 - v) * (1.0 + v))
 
 
+class ThermoRef:
+    """The analytic-EOS interface (ref(phase, T) -> p, e, w, csq; Tnucl) over a *real*
+    WallGo.Thermodynamics object, e.g. one traced numerically by WallGoManager.  Only p and
+    its first two derivatives are read from the object; w, e, c_s^2 are formed here."""
+
+    def __init__(self, thermo):
+        self.t = thermo
+        self.Tnucl = float(thermo.Tnucl)
+        self.s = 1.0
+
+    def ref(self, phase, T):
+        t = self.t
+        if phase == "H":
+            p, dp, ddp = t.pHighT(T), t.dpHighT(T), t.ddpHighT(T)
+        else:
+            p, dp, ddp = t.pLowT(T), t.dpLowT(T), t.ddpLowT(T)
+        p, dp, ddp = float(p), float(dp), float(ddp)
+        return {"p": p, "w": T * dp, "e": T * dp - p, "csq": dp / (T * ddp)}
+
+
 class HydroProbe:
+    @classmethod
+    def from_objects(cls, thermo, hyd, rtol, atol, spec=None):
+        """Probe over an existing Thermodynamics/Hydrodynamics pair (WallGoManager's)."""
+        import WallGo
+        import WallGo.hydrodynamics as H
+        self = cls.__new__(cls)
+        self.spec = spec
+        self.eos = ThermoRef(thermo)
+        self.Tn = self.eos.Tnucl
+        self.rtol, self.atol = rtol, atol
+        self.events = []
+        self.counts = {"matchDeflagOrHyb": 0, "matchDeton": 0, "template_fallback": 0,
+                       "minimize_scalar": 0}
+        self.hyd = hyd
+        self.tmpl = WallGo.HydrodynamicsTemplateModel(thermo, rtol=rtol, atol=atol)
+        self._H = H
+        self._install()
+        return self
+
     def __init__(self, spec, rtol, atol):
         import WallGo
         import WallGo.hydrodynamics as H
